@@ -472,7 +472,7 @@ impl EvOp {
                 r.map(|s| format!(" ref e{}", s + 1)).unwrap_or_default()
             ),
             EvOp::EmitCAfterBad(c, k, r) => format!(
-                "c{c} emits CM with an unmappable reference and then {k:?}{}",
+                "c{c} emits CM with an unmappable reference, triggers CT at an unmappable target and then emits {k:?}{}",
                 r.map(|s| format!(" ref e{}", s + 1)).unwrap_or_default()
             ),
             EvOp::Connect(c) => format!("connect c{c}"),
@@ -900,6 +900,8 @@ impl EvCell {
                     let w = x.sim.clients[c].app.world_mut();
                     let local = w.spawn_empty().id();
                     w.send_event(CM { seq: seq(CK::CM.tag(), 0), e: local });
+                    // ... and a trigger aimed at it: it has no counterpart on the server either
+                    w.client_trigger_targets(CT(seq(CK::CT.tag(), 0)), local);
                 }
                 let n = x.next_n;
                 x.next_n += 1;
